@@ -72,6 +72,894 @@ def KindsAgree (wl : List Callback) (E : ExecInfo) : Prop :=
     | .polledUnknown => E.isTimer i = false
     | .polled p => E.isTimer i = false ∧ E.prio i = p
 
+namespace RrSoundLemmas
+open Classical TimerSoundLemmas
+
+variable {s : Sys} {σ : ℕ → Bool} {E : ExecInfo}
+
+/-! ### basic facts (via the timer Spec, whose `valid`/`nonpre` fields are the same) -/
+
+theorem toTimer (hl : PollingExecLegal s σ E) (i : ℕ) :
+    SupplyTimerLegal s σ i (fun k => k ≠ i) where
+  valid := hl.valid
+  nonpre := hl.nonpre
+  wc := fun t h ⟨k, hk, _, hp⟩ => hl.wc t h ⟨k, hk, hp⟩
+  prioOther := fun t j _ _ hnr => absurd (Decidable.em (s.task j = i)) hnr
+  prioOwn := by
+    intro t j hs h0 hji k hk hki hp
+    by_cases hkj : k = j
+    · subst hkj; exact le_refl _
+    · rcases hl.nonpre t j hs k hk hkj with h | h
+      · exact hl.fifo t j ⟨hs, h0⟩ k hk (by rw [hki, hji]) hp h
+      · have := hp.2; omega
+
+theorem p_svc_le_cost (hl : PollingExecLegal s σ E) (j t : ℕ) : svc s j t ≤ s.cost j :=
+  t_svc_le_cost (toTimer hl 0) j t
+
+theorem p_svc_zero_before (hl : PollingExecLegal s σ E) (j t : ℕ) (h : t ≤ s.arr j) :
+    svc s j t = 0 := t_svc_zero_before (toTimer hl 0) j t h
+
+theorem p_done_mono (hl : PollingExecLegal s σ E) (j : ℕ) {a b : ℕ} (h : a ≤ b)
+    (hd : svc s j a = s.cost j) : svc s j b = s.cost j := t_done_mono (toTimer hl 0) j h hd
+
+theorem p_atmost_one (hl : PollingExecLegal s σ E) (t k1 k2 : ℕ) (h1 : k1 < s.n) (h2 : k2 < s.n)
+    (a1 : SI s k1 t) (a2 : SI s k2 t) : k1 = k2 := atmost_one (toTimer hl 0) t k1 k2 h1 h2 a1 a2
+
+/-- a job unstarted at `x` that has service at `y` starts in `[x, y)` -/
+theorem start_in (k x y : ℕ) (h0 : svc s k x = 0) (hy : 0 < svc s k y) :
+    ∃ u, x ≤ u ∧ u < y ∧ StartsAt s k u := by
+  obtain ⟨u, hu, hs, hz⟩ := exists_start (s := s) k y hy
+  refine ⟨u, ?_, hu, hs, hz⟩
+  rcases Nat.lt_or_ge u x with h | h
+  · have h1 := svc_succ_of_eq (s := s) k u hs
+    have h2 := svc_mono (s := s) k (show u + 1 ≤ x by omega)
+    omega
+  · exact h
+
+theorem startsAt_svc (k u y : ℕ) (h : StartsAt s k u) (hy : u < y) : 0 < svc s k y := by
+  have h1 := svc_succ_of_eq (s := s) k u h.1
+  have h2 := svc_mono (s := s) k (show u + 1 ≤ y by omega)
+  omega
+
+theorem startsAt_zero (k u x : ℕ) (h : StartsAt s k u) (hx : x ≤ u) : svc s k x = 0 := by
+  have h2 := svc_mono (s := s) k hx
+  have := h.2
+  omega
+
+/-! ### polling points and windows -/
+
+/-- polling points in `[x, y)` -/
+noncomputable def ppIn (E : ExecInfo) (x y : ℕ) : Finset ℕ :=
+  (range y).filter (fun v => x ≤ v ∧ E.pp v = true)
+
+theorem mem_ppIn (x y v : ℕ) : v ∈ ppIn E x y ↔ (v < y ∧ x ≤ v ∧ E.pp v = true) := by
+  unfold ppIn; rw [mem_filter, mem_range]
+
+theorem ppIn_subset (x x' y y' : ℕ) (h : ∀ v, x ≤ v → v < y → E.pp v = true → x' ≤ v ∧ v < y') :
+    (ppIn E x y).card ≤ (ppIn E x' y').card := by
+  apply card_le_card
+  intro v hv
+  rw [mem_ppIn] at hv ⊢
+  have := h v hv.2.1 hv.1 hv.2.2
+  exact ⟨this.2, this.1, hv.2.2⟩
+
+theorem ppIn_card_succ (x q y : ℕ) (h1 : x ≤ q) (h2 : q < y) (hq : E.pp q = true) :
+    (ppIn E x q).card + 1 ≤ (ppIn E x y).card := by
+  have hn : q ∉ ppIn E x q := by rw [mem_ppIn]; omega
+  rw [← card_insert_of_notMem hn]
+  apply card_le_card
+  intro v hv
+  rw [mem_insert] at hv
+  rw [mem_ppIn]
+  rcases hv with rfl | hv
+  · exact ⟨h2, h1, hq⟩
+  · rw [mem_ppIn] at hv; exact ⟨by omega, hv.2⟩
+
+theorem ppIn_card_last (x q y : ℕ) (_h1 : x ≤ q)
+    (hno : ∀ v, q < v → v < y → E.pp v = false) :
+    (ppIn E x y).card ≤ (ppIn E x q).card + 1 := by
+  have hn : q ∉ ppIn E x q := by rw [mem_ppIn]; omega
+  rw [← card_insert_of_notMem hn]
+  apply card_le_card
+  intro v hv
+  rw [mem_ppIn] at hv
+  rw [mem_insert, mem_ppIn]
+  rcases Nat.lt_trichotomy v q with h | h | h
+  · exact Or.inr ⟨h, hv.2⟩
+  · exact Or.inl h
+  · have := hno v h hv.1; rw [hv.2.2] at this; cases this
+
+/-- a nonempty set of polling points has a last element -/
+theorem ppIn_last (x : ℕ) : ∀ y, 0 < (ppIn E x y).card →
+    ∃ q, x ≤ q ∧ q < y ∧ E.pp q = true ∧ (∀ v, q < v → v < y → E.pp v = false) := by
+  intro y
+  induction y with
+  | zero =>
+    intro h
+    obtain ⟨v, hv⟩ := card_pos.1 h
+    rw [mem_ppIn] at hv; omega
+  | succ y ih =>
+    intro h
+    by_cases hy : x ≤ y ∧ E.pp y = true
+    · exact ⟨y, hy.1, by omega, hy.2, fun v h1 h2 => by omega⟩
+    · have : 0 < (ppIn E x y).card := by
+        obtain ⟨v, hv⟩ := card_pos.1 h
+        rw [mem_ppIn] at hv
+        apply card_pos.2
+        refine ⟨v, ?_⟩
+        rw [mem_ppIn]
+        refine ⟨?_, hv.2⟩
+        rcases Nat.lt_or_ge v y with h' | h'
+        · exact h'
+        · have e : v = y := by omega
+          subst e; exact absurd hv.2 hy
+      obtain ⟨q, h1, h2, h3, h4⟩ := ih this
+      refine ⟨q, h1, by omega, h3, ?_⟩
+      intro v hv1 hv2
+      rcases Nat.lt_or_ge v y with h' | h'
+      · exact h4 v hv1 h'
+      · have e : v = y := by omega
+        subst e
+        cases hp : E.pp v with
+        | false => rfl
+        | true => exact absurd ⟨by omega, hp⟩ hy
+
+theorem lastPP_shift (p u u' : ℕ) (h : LastPP E p u) (hu : u ≤ u')
+    (hno : ∀ v, u < v → v ≤ u' → E.pp v = false) : LastPP E p u' := by
+  refine ⟨h.1, by have := h.2.1; omega, ?_⟩
+  intro v h1 h2
+  rcases Nat.lt_or_ge u v with h' | h'
+  · exact hno v h' h2
+  · exact h.2.2 v h1 h'
+
+/-- instances of callback `c` that start in `[x, y)` -/
+noncomputable def StSet (s : Sys) (c x y : ℕ) : Finset ℕ :=
+  (range s.n).filter (fun K => s.task K = c ∧ svc s K x = 0 ∧ 0 < svc s K y)
+
+theorem mem_StSet (c x y K : ℕ) :
+    K ∈ StSet s c x y ↔ (K < s.n ∧ s.task K = c ∧ svc s K x = 0 ∧ 0 < svc s K y) := by
+  unfold StSet; rw [mem_filter, mem_range]
+
+theorem StSet_mono (c x y y' : ℕ) (h : y ≤ y') : StSet s c x y ⊆ StSet s c x y' := by
+  intro K hK
+  rw [mem_StSet] at hK ⊢
+  have := svc_mono (s := s) K h
+  exact ⟨hK.1, hK.2.1, hK.2.2.1, by omega⟩
+
+theorem StSet_split (c x y z : ℕ) : StSet s c x z ⊆ StSet s c x y ∪ StSet s c y z := by
+  intro K hK
+  rw [mem_union, mem_StSet, mem_StSet]
+  rw [mem_StSet] at hK
+  rcases Nat.eq_zero_or_pos (svc s K y) with h | h
+  · exact Or.inr ⟨hK.1, hK.2.1, h, hK.2.2.2⟩
+  · exact Or.inl ⟨hK.1, hK.2.1, hK.2.2.1, h⟩
+
+/-- at most one instance of a polled callback starts in a stretch without polling points -/
+theorem one_per_window (hl : PollingExecLegal s σ E) (c x y : ℕ) (hc : E.isTimer c = false)
+    (hno : ∀ v, x < v → v < y → E.pp v = false) : (StSet s c x y).card ≤ 1 := by
+  have key : ∀ K K' u u', s.task K = c → s.task K' = c → x ≤ u → u ≤ u' → u' < y →
+      StartsAt s K u → StartsAt s K' u' → K = K' := by
+    intro K K' u u' hK hK' h1 h2 h3 hs hs'
+    obtain ⟨p, hp, _⟩ := hl.inWindow u K hs (by rw [hK]; exact hc)
+    have hp' := lastPP_shift p u u' hp h2 (fun v a b => hno v (by omega) (by omega))
+    exact hl.once p u u' K K' hp hp' hs hs' (by rw [hK]; exact hc) (by rw [hK, hK'])
+  apply card_le_one.2
+  intro K hK K' hK'
+  rw [mem_StSet] at hK hK'
+  obtain ⟨u, hu1, hu2, hs⟩ := start_in K x y hK.2.2.1 hK.2.2.2
+  obtain ⟨u', hu1', hu2', hs'⟩ := start_in K' x y hK'.2.2.1 hK'.2.2.2
+  rcases Nat.le_total u u' with h | h
+  · exact key K K' u u' hK.2.1 hK'.2.1 hu1 h hu2' hs hs'
+  · exact (key K' K u' u hK'.2.1 hK.2.1 hu1' h hu2 hs' hs).symm
+
+/-- the instances of a polled callback that start in `[x, y)`: at most one more than the
+number of polling points in `(x, y)` -/
+theorem starts_le_pp (hl : PollingExecLegal s σ E) (c : ℕ) (hc : E.isTimer c = false) (x : ℕ) :
+    ∀ y, (StSet s c x y).card ≤ (ppIn E (x + 1) y).card + 1 := by
+  intro y
+  induction y using Nat.strongRecOn with
+  | _ y ih =>
+    rcases Nat.eq_zero_or_pos (ppIn E (x + 1) y).card with h0 | hpos
+    · rw [h0]
+      apply one_per_window hl c x y hc
+      intro v h1 h2
+      cases hp : E.pp v with
+      | false => rfl
+      | true =>
+        exfalso
+        have : v ∈ ppIn E (x + 1) y := by rw [mem_ppIn]; exact ⟨h2, h1, hp⟩
+        have := card_pos.2 ⟨v, this⟩
+        omega
+    · obtain ⟨q, h1, h2, h3, h4⟩ := ppIn_last (x + 1) y hpos
+      have ha := card_le_card (StSet_split (s := s) c x q y)
+      have hb := card_union_le (StSet s c x q) (StSet s c q y)
+      have hc1 := ih q h2
+      have hc2 := one_per_window hl c q y hc h4
+      have hc3 := ppIn_card_succ (E := E) (x + 1) q y h1 h2 h3
+      omega
+
+theorem StSet_card_succ (c x y y' k : ℕ) (h : y ≤ y') (hk : k ∈ StSet s c x y')
+    (hn : k ∉ StSet s c x y) : (StSet s c x y).card + 1 ≤ (StSet s c x y').card := by
+  rw [← card_insert_of_notMem hn]
+  apply card_le_card
+  intro v hv
+  rw [mem_insert] at hv
+  rcases hv with rfl | hv
+  · exact hk
+  · exact StSet_mono c x y y' h hv
+
+/-- while an instance `J` of a polled callback waits unstarted, every polling point but the
+last one is followed by the start of another instance of its callback -/
+theorem pp_chain (hl : PollingExecLegal s σ E) (J : ℕ) (hJ : J < s.n)
+    (hpol : E.isTimer (s.task J) = false) : ∀ len, svc s J (s.arr J + len) = 0 →
+    (ppIn E (s.arr J) (s.arr J + len)).card = 0 ∨
+    ∃ q, s.arr J ≤ q ∧ q < s.arr J + len ∧ E.pp q = true ∧
+      (∀ v, q < v → v < s.arr J + len → E.pp v = false) ∧
+      (ppIn E (s.arr J) (s.arr J + len)).card ≤ (StSet s (s.task J) (s.arr J) q).card + 1 := by
+  intro len
+  induction len with
+  | zero =>
+    intro _
+    left
+    apply Nat.eq_zero_of_not_pos
+    intro h
+    obtain ⟨v, hv⟩ := card_pos.1 h
+    rw [mem_ppIn] at hv; omega
+  | succ len ih =>
+    intro h0
+    have e : s.arr J + (len + 1) = s.arr J + len + 1 := by omega
+    rw [e] at h0 ⊢
+    have h0' : svc s J (s.arr J + len) = 0 := by
+      have := svc_mono (s := s) J (show s.arr J + len ≤ s.arr J + len + 1 by omega)
+      omega
+    cases hp : E.pp (s.arr J + len) with
+    | false =>
+      have hle : (ppIn E (s.arr J) (s.arr J + len + 1)).card ≤ (ppIn E (s.arr J) (s.arr J + len)).card := by
+        apply ppIn_subset
+        intro v h1 h2 h3
+        refine ⟨h1, ?_⟩
+        rcases Nat.lt_or_ge v (s.arr J + len) with h | h
+        · exact h
+        · have e : v = s.arr J + len := by omega
+          rw [e, hp] at h3; cases h3
+      rcases ih h0' with h | ⟨q, h1, h2, h3, h4, h5⟩
+      · left; omega
+      · right
+        refine ⟨q, h1, by omega, h3, ?_, by omega⟩
+        intro v hv1 hv2
+        rcases Nat.lt_or_ge v (s.arr J + len) with h | h
+        · exact h4 v hv1 h
+        · have e : v = s.arr J + len := by omega
+          rw [e]; exact hp
+    | true =>
+      right
+      have hle := ppIn_card_last (E := E) (s.arr J) (s.arr J + len) (s.arr J + len + 1) (by omega)
+        (fun v a b => by omega)
+      refine ⟨s.arr J + len, by omega, by omega, hp, fun v a b => by omega, ?_⟩
+      rcases ih h0' with h | ⟨q, h1, h2, h3, h4, h5⟩
+      · omega
+      · obtain ⟨k, u, hk, hkJ, hkt, hu1, hu2, hst⟩ :=
+          hl.served q (s.arr J + len) J h3 hp h2 hJ hpol h1 h0'
+        have hmem : k ∈ StSet s (s.task J) (s.arr J) (s.arr J + len) := by
+          rw [mem_StSet]
+          exact ⟨hk, hkt, startsAt_zero k u _ hst (by omega), startsAt_svc k u _ hst hu2⟩
+        have hnm : k ∉ StSet s (s.task J) (s.arr J) q := by
+          rw [mem_StSet]
+          intro h
+          have := startsAt_zero k u q hst hu1
+          omega
+        have := StSet_card_succ (s := s) (s.task J) (s.arr J) q (s.arr J + len) k (by omega) hmem hnm
+        omega
+
+/-! ### the analysed system, abstractly -/
+
+/-- what the schedule-level argument needs: callbacks `0 … nT-1` with kinds `kind`, arrival
+bounds `N c`, assumed response-time bounds `rtb c`, WCETs `C c` -/
+structure Ana (s : Sys) (σ : ℕ → Bool) (E : ExecInfo) (nT : ℕ) (kind : ℕ → CbKind)
+    (N : ℕ → ℕ → ℕ) (C : ℕ → ℕ) : Prop where
+  hl : PollingExecLegal s σ E
+  htask : ∀ k, k < s.n → s.task k < nT
+  hkinds : ∀ i, i < nT →
+    match kind i with
+    | .timer => E.isTimer i = true
+    | .eventSource => False
+    | .polledUnknown => E.isTimer i = false
+    | .polled p => E.isTimer i = false ∧ E.prio i = p
+  hprio : ∀ i j, i < nT → j < nT → E.isTimer i = false → E.isTimer j = false →
+      E.prio i = E.prio j → i = j
+  hN : ∀ i t d, countOf s i t (t + d) ≤ N i d
+  hNmono : ∀ i a b, a ≤ b → N i a ≤ N i b
+  hcost : ∀ k, k < s.n → 1 ≤ s.cost k ∧ s.cost k ≤ C (s.task k)
+
+/-- the job under analysis: every job whose assumed bound expires at or before the release
+of `J` is complete by then -/
+structure JobCtx (s : Sys) (rtb : ℕ → ℕ) (J : ℕ) : Prop where
+  hJ : J < s.n
+  old : ∀ K, K < s.n → s.arr K + rtb (s.task K) ≤ s.arr J → svc s K (s.arr J) = s.cost K
+  hrtb : 1 ≤ rtb (s.task J)
+
+variable {nT : ℕ} {kind : ℕ → CbKind} {N : ℕ → ℕ → ℕ} {C rtb : ℕ → ℕ} {J : ℕ}
+
+theorem countOf_window (A : Ana s σ E nT kind N C) (c lo hi d : ℕ) (h : hi ≤ lo + d) :
+    countOf s c lo hi ≤ N c d := by
+  rcases Nat.lt_or_ge hi lo with h' | h'
+  · have : countOf s c lo hi = 0 := by
+      unfold countOf
+      apply card_eq_zero.2
+      apply filter_eq_empty_iff.2
+      intro k _ hk
+      omega
+    omega
+  · have h1 := A.hN c lo (hi - lo)
+    have e : lo + (hi - lo) = hi := by omega
+    rw [e] at h1
+    exact Nat.le_trans h1 (A.hNmono c _ _ (by omega))
+
+/-- the own instances started while `J` waits, and `J`, were released in `(a - rtb, a]` -/
+theorem own_window (A : Ana s σ E nT kind N C) (jc : JobCtx s rtb J) (T : ℕ)
+    (hT0 : svc s J T = 0) :
+    (StSet s (s.task J) (s.arr J) T).card + 1 ≤ N (s.task J) (rtb (s.task J)) := by
+  have hn : J ∉ StSet s (s.task J) (s.arr J) T := by
+    rw [mem_StSet]; intro h; omega
+  rw [← card_insert_of_notMem hn]
+  refine Nat.le_trans ?_ (countOf_window A (s.task J) (s.arr J + 1 - rtb (s.task J)) (s.arr J + 1)
+    (rtb (s.task J)) (by omega))
+  unfold countOf
+  apply card_le_card
+  intro k hk
+  rw [mem_insert] at hk
+  rw [mem_filter, mem_range]
+  rcases hk with rfl | hk
+  · exact ⟨jc.hJ, rfl, by have := jc.hrtb; omega, by omega⟩
+  · rw [mem_StSet] at hk
+    obtain ⟨hkn, hkt, hk0, hkT⟩ := hk
+    obtain ⟨u, hu1, hu2, hst⟩ := start_in k _ _ hk0 hkT
+    have hJu : svc s J u = 0 := by
+      have := svc_mono (s := s) J (show u ≤ T by omega); omega
+    have hcJ := (A.hcost J jc.hJ).1
+    have hfifo := A.hl.fifo u k hst J jc.hJ hkt.symm ⟨hu1, by omega⟩ hJu
+    refine ⟨hkn, hkt, ?_, by omega⟩
+    rcases Nat.lt_or_ge (s.arr J) (s.arr k + rtb (s.task J)) with h | h
+    · omega
+    · have := jc.old k hkn (by rw [hkt]; exact h)
+      have := (A.hcost k hkn).1
+      omega
+
+/-- the start `x0` of the callback running at `a` (or `a` itself): no polling point in
+`(x0, a]`, and every job incomplete at `a` is unstarted at `x0` -/
+theorem exists_x0 (hl : PollingExecLegal s σ E) (a : ℕ) :
+    ∃ x0, x0 ≤ a ∧ (∀ v, x0 < v → v ≤ a → E.pp v = false) ∧
+      ∀ K, K < s.n → svc s K a < s.cost K → svc s K x0 = 0 := by
+  by_cases h : ∃ K0, K0 < s.n ∧ SI s K0 a
+  · obtain ⟨K0, hK0, hsi⟩ := h
+    obtain ⟨u0, hu0, hs0, hz0⟩ := exists_start (s := s) K0 a hsi.1
+    refine ⟨u0, by omega, ?_, ?_⟩
+    · intro v h1 h2
+      cases hp : E.pp v with
+      | false => rfl
+      | true =>
+        exfalso
+        have h3 := startsAt_svc K0 u0 v ⟨hs0, hz0⟩ h1
+        have h4 := svc_mono (s := s) K0 h2
+        have := hsi.2
+        rcases hl.ppIdle v hp K0 hK0 with h | h <;> omega
+    · intro K hK hlt
+      rcases Nat.eq_zero_or_pos (svc s K a) with h | h
+      · have := svc_mono (s := s) K (show u0 ≤ a by omega); omega
+      · have := p_atmost_one hl a K K0 hK hK0 ⟨h, hlt⟩ hsi
+        rw [this]; exact hz0
+  · refine ⟨a, le_refl _, fun v h1 h2 => by omega, ?_⟩
+    intro K hK hlt
+    rcases Nat.eq_zero_or_pos (svc s K a) with h' | h'
+    · exact h'
+    · exact absurd ⟨K, hK, h', hlt⟩ h
+
+/-- the instances of callback `c`, other than `J`, that receive service in `[a, T)` -/
+noncomputable def ActSet (s : Sys) (J c a T : ℕ) : Finset ℕ :=
+  (range s.n).filter (fun K => K ≠ J ∧ s.task K = c ∧ svc s K a < svc s K T)
+
+theorem mem_ActSet (c a T K : ℕ) :
+    K ∈ ActSet s J c a T ↔ (K < s.n ∧ K ≠ J ∧ s.task K = c ∧ svc s K a < svc s K T) := by
+  unfold ActSet; rw [mem_filter, mem_range]
+
+theorem ActSet_sub_StSet (hl : PollingExecLegal s σ E) (c a T x0 : ℕ)
+    (hx0 : ∀ K, K < s.n → svc s K a < s.cost K → svc s K x0 = 0) :
+    ActSet s J c a T ⊆ StSet s c x0 T := by
+  intro K hK
+  rw [mem_ActSet] at hK
+  rw [mem_StSet]
+  have := p_svc_le_cost hl K T
+  exact ⟨hK.1, hK.2.2.1, hx0 K hK.1 (by omega), by omega⟩
+
+/-- (1c) a polled callback is served at most once per window -/
+theorem act_polled (hl : PollingExecLegal s σ E) (c a T : ℕ) (hc : E.isTimer c = false) :
+    (ActSet s J c a T).card ≤ (ppIn E a T).card + 1 := by
+  obtain ⟨x0, h1, h2, h3⟩ := exists_x0 hl a
+  have ha := card_le_card (ActSet_sub_StSet (J := J) hl c a T x0 h3)
+  have hb := starts_le_pp hl c hc x0 T
+  have hc' : (ppIn E (x0 + 1) T).card ≤ (ppIn E a T).card := by
+    apply ppIn_subset
+    intro v hv1 hv2 hv3
+    refine ⟨?_, hv2⟩
+    rcases Nat.lt_or_ge a v with h | h
+    · omega
+    · have := h2 v hv1 h; rw [hv3] at this; cases this
+  omega
+
+/-- (1e) while a timer instance waits, no polled callback is started -/
+theorem act_timer (hl : PollingExecLegal s σ E) (hJ : J < s.n) (hc0 : 1 ≤ s.cost J) (c T : ℕ)
+    (hc : E.isTimer c = false) (hi : E.isTimer (s.task J) = true) (hT0 : svc s J T = 0) :
+    (ActSet s J c (s.arr J) T).card ≤ 1 := by
+  have key : ∀ K, K ∈ ActSet s J c (s.arr J) T → SI s K (s.arr J) := by
+    intro K hK
+    rw [mem_ActSet] at hK
+    have hle := p_svc_le_cost hl K T
+    refine ⟨?_, by omega⟩
+    rcases Nat.eq_zero_or_pos (svc s K (s.arr J)) with h | h
+    · exfalso
+      obtain ⟨u, hu1, hu2, hst⟩ := start_in K (s.arr J) T h (by omega)
+      have hJu : svc s J u = 0 := by
+        have := svc_mono (s := s) J (show u ≤ T by omega); omega
+      exact hl.timersFirst u K hst (by rw [hK.2.2.1]; exact hc) J hJ hi ⟨hu1, by omega⟩
+    · exact h
+  apply card_le_one.2
+  intro K hK K' hK'
+  have h1 := key K hK
+  have h2 := key K' hK'
+  rw [mem_ActSet] at hK hK'
+  exact p_atmost_one hl _ K K' hK.1 hK'.1 h1 h2
+
+/-- (1b) the polling points met while `J` (polled) waits are bounded by the own instances
+released in `(a - rtb, a]` -/
+theorem pp_le_starts (hl : PollingExecLegal s σ E) (hJ : J < s.n)
+    (hpol : E.isTimer (s.task J) = false) (T : ℕ) (hT : s.arr J ≤ T) (hT0 : svc s J T = 0) :
+    (ppIn E (s.arr J) T).card ≤ (StSet s (s.task J) (s.arr J) T).card + 1 := by
+  obtain ⟨len, rfl⟩ := Nat.exists_eq_add_of_le hT
+  rcases pp_chain hl J hJ hpol len hT0 with h | ⟨q, h1, h2, h3, h4, h5⟩
+  · omega
+  · have := card_le_card (StSet_mono (s := s) (s.task J) (s.arr J) q (s.arr J + len) (by omega))
+    omega
+
+/-- (1d) a polled callback of lower priority than the (polled) callback of `J` -/
+theorem act_lowprio (A : Ana s σ E nT kind N C) (jc : JobCtx s rtb J) (c T : ℕ)
+    (hpol : E.isTimer (s.task J) = false) (hc : E.isTimer c = false)
+    (hpr : E.prio (s.task J) < E.prio c) (hT : s.arr J ≤ T) (hT0 : svc s J T = 0) :
+    (ActSet s J c (s.arr J) T).card ≤ N (s.task J) (rtb (s.task J)) := by
+  have hl := A.hl
+  have how := own_window A jc T hT0
+  obtain ⟨len, rfl⟩ := Nat.exists_eq_add_of_le hT
+  rcases pp_chain hl J jc.hJ hpol len hT0 with h | ⟨q, h1, h2, h3, h4, h5⟩
+  · have := act_polled (J := J) hl c (s.arr J) (s.arr J + len) hc
+    omega
+  · obtain ⟨x0, hx1, hx2, hx3⟩ := exists_x0 hl (s.arr J)
+    have ha := card_le_card (ActSet_sub_StSet (J := J) hl c (s.arr J) (s.arr J + len) x0 hx3)
+    have hb := card_le_card (StSet_split (s := s) c x0 q (s.arr J + len))
+    have hb' := card_union_le (StSet s c x0 q) (StSet s c q (s.arr J + len))
+    have hc1 := starts_le_pp hl c hc x0 q
+    have hc2 : (ppIn E (x0 + 1) q).card ≤ (ppIn E (s.arr J) q).card := by
+      apply ppIn_subset
+      intro v hv1 hv2 hv3
+      refine ⟨?_, hv2⟩
+      rcases Nat.lt_or_ge (s.arr J) v with h | h
+      · omega
+      · have := hx2 v hv1 h; rw [hv3] at this; cases this
+    have hc3 := ppIn_card_succ (E := E) (s.arr J) q (s.arr J + len) h1 h2 h3
+    have hd := one_per_window hl c q (s.arr J + len) hc h4
+    have hmono := card_le_card (StSet_mono (s := s) (s.task J) (s.arr J) q (s.arr J + len) (by omega))
+    rcases Nat.eq_zero_or_pos (StSet s c q (s.arr J + len)).card with h0 | hpos
+    · omega
+    · obtain ⟨K, hK⟩ := card_pos.1 hpos
+      rw [mem_StSet] at hK
+      obtain ⟨t, ht1, ht2, hst⟩ := start_in K q (s.arr J + len) hK.2.2.1 hK.2.2.2
+      have hlp : LastPP E q t := ⟨h3, ht1, fun v a b => h4 v a (by omega)⟩
+      have hJq : svc s J q = 0 := by
+        have := svc_mono (s := s) J (show q ≤ s.arr J + len by omega); omega
+      obtain ⟨k', u, hk', hkt, hu1, hu2, hst'⟩ :=
+        hl.prioWin q t K J hlp hst (by rw [hK.2.1]; exact hc) jc.hJ hpol
+          (by rw [hK.2.1]; exact hpr) h1 hJq
+      have hmem : k' ∈ StSet s (s.task J) (s.arr J) (s.arr J + len) := by
+        rw [mem_StSet]
+        exact ⟨hk', hkt, startsAt_zero k' u _ hst' (by omega), startsAt_svc k' u _ hst' (by omega)⟩
+      have hnm : k' ∉ StSet s (s.task J) (s.arr J) q := by
+        rw [mem_StSet]
+        intro h
+        have := startsAt_zero k' u q hst' hu1
+        omega
+      have := StSet_card_succ (s := s) (s.task J) (s.arr J) q (s.arr J + len) k' (by omega) hmem hnm
+      omega
+
+/-- (1a) the instances served in `[a, T)` were released in `(a - rtb, T)` -/
+theorem act_mem_window (A : Ana s σ E nT kind N C) (jc : JobCtx s rtb J) (c S T K : ℕ)
+    (hT : T ≤ s.arr J + S) (hK : K ∈ ActSet s J c (s.arr J) T) :
+    K ∈ (range s.n).filter (fun k => s.task k = c ∧ s.arr J + 1 - rtb c ≤ s.arr k ∧
+      s.arr k < s.arr J + S) := by
+  rw [mem_ActSet] at hK
+  rw [mem_filter, mem_range]
+  obtain ⟨hKn, _, hKc, hlt⟩ := hK
+  refine ⟨hKn, hKc, ?_, ?_⟩
+  · rcases Nat.lt_or_ge (s.arr J) (s.arr K + rtb c) with h | h
+    · omega
+    · have := jc.old K hKn (by rw [hKc]; exact h)
+      have := p_svc_le_cost A.hl K T
+      omega
+  · rcases Nat.lt_or_ge (s.arr K) T with h | h
+    · omega
+    · have := p_svc_zero_before A.hl K T h
+      omega
+
+theorem act_arrived (A : Ana s σ E nT kind N C) (jc : JobCtx s rtb J) (c S T : ℕ)
+    (hT : T ≤ s.arr J + S) :
+    (ActSet s J c (s.arr J) T).card ≤ N c (S + rtb c - 1) := by
+  refine Nat.le_trans ?_ (countOf_window A c (s.arr J + 1 - rtb c) (s.arr J + S)
+    (S + rtb c - 1) (by omega))
+  unfold countOf
+  apply card_le_card
+  intro K hK
+  exact act_mem_window A jc c S T K hT hK
+
+theorem act_arrived_own (A : Ana s σ E nT kind N C) (jc : JobCtx s rtb J) (S T : ℕ)
+    (hS : 1 ≤ S) (hT : T ≤ s.arr J + S) :
+    (ActSet s J (s.task J) (s.arr J) T).card + 1 ≤ N (s.task J) (S + rtb (s.task J) - 1) := by
+  have hn : J ∉ ActSet s J (s.task J) (s.arr J) T := by
+    rw [mem_ActSet]; intro h; exact h.2.1 rfl
+  rw [← card_insert_of_notMem hn]
+  refine Nat.le_trans ?_ (countOf_window A (s.task J) (s.arr J + 1 - rtb (s.task J)) (s.arr J + S)
+    (S + rtb (s.task J) - 1) (by omega))
+  unfold countOf
+  apply card_le_card
+  intro K hK
+  rw [mem_insert] at hK
+  rcases hK with rfl | hK
+  · rw [mem_filter, mem_range]
+    exact ⟨jc.hJ, rfl, by have := jc.hrtb; omega, by omega⟩
+  · exact act_mem_window A jc (s.task J) S T K hT hK
+
+/-- the cap of the analysis on the interfering instances of callback `c` -/
+theorem act_cap (A : Ana s σ E nT kind N C) (jc : JobCtx s rtb J) (c S T : ℕ) (hc : c < nT)
+    (hci : c ≠ s.task J) (hT : s.arr J ≤ T) (hTS : T ≤ s.arr J + S) (hT0 : svc s J T = 0) :
+    (ActSet s J c (s.arr J) T).card ≤
+      cappedJobs (kind c) (kind (s.task J)) (N c (S + rtb c - 1)) (N (s.task J) (rtb (s.task J))) := by
+  have hl := A.hl
+  have hi := A.htask J jc.hJ
+  have harr := act_arrived A jc c S T hTS
+  have how := own_window A jc T hT0
+  have gen : E.isTimer c = false →
+      (ActSet s J c (s.arr J) T).card ≤ N (s.task J) (rtb (s.task J)) + 1 := by
+    intro hcp
+    cases hti : E.isTimer (s.task J) with
+    | false =>
+      have h1 := act_polled (J := J) hl c (s.arr J) T hcp
+      have h2 := pp_le_starts hl jc.hJ hti T hT hT0
+      omega
+    | true =>
+      have := act_timer hl jc.hJ (A.hcost J jc.hJ).1 c T hcp hti hT0
+      omega
+  have hkc := A.hkinds c hc
+  have hki := A.hkinds (s.task J) hi
+  cases hk : kind c with
+  | timer => exact harr
+  | eventSource => rw [hk] at hkc; exact hkc.elim
+  | polledUnknown =>
+    rw [hk] at hkc
+    simp only [cappedJobs]
+    exact Nat.le_min.2 ⟨harr, gen hkc⟩
+  | polled p =>
+    rw [hk] at hkc
+    have hkc' : E.isTimer c = false ∧ E.prio c = p := hkc
+    cases hk' : kind (s.task J) with
+    | polled q =>
+      rw [hk'] at hki
+      have hki' : E.isTimer (s.task J) = false ∧ E.prio (s.task J) = q := hki
+      simp only [cappedJobs]
+      by_cases hpq : p < q
+      · rw [if_pos hpq]
+        exact Nat.le_min.2 ⟨harr, gen hkc'.1⟩
+      · rw [if_neg hpq]
+        have hne : E.prio (s.task J) ≠ E.prio c := fun h =>
+          hci (A.hprio _ _ hi hc hki'.1 hkc'.1 h).symm
+        have := act_lowprio A jc c T hki'.1 hkc'.1 (by omega) hT hT0
+        exact Nat.le_min.2 ⟨harr, by omega⟩
+    | timer => simp only [cappedJobs]; exact Nat.le_min.2 ⟨harr, gen hkc'.1⟩
+    | eventSource => simp only [cappedJobs]; exact Nat.le_min.2 ⟨harr, gen hkc'.1⟩
+    | polledUnknown => simp only [cappedJobs]; exact Nat.le_min.2 ⟨harr, gen hkc'.1⟩
+
+/-- the interference term of the analysis for callback `i` at `S` -/
+noncomputable def interf (nT : ℕ) (kind : ℕ → CbKind) (N : ℕ → ℕ → ℕ) (C rtb : ℕ → ℕ) (i S : ℕ) : ℕ :=
+  ∑ c ∈ range nT, if c = i then C c * (N c (S + rtb c - 1) - 1)
+    else C c * cappedJobs (kind c) (kind i) (N c (S + rtb c - 1)) (N i (rtb i))
+
+theorem act_sum_le (A : Ana s σ E nT kind N C) (c a T : ℕ) :
+    (∑ K ∈ range s.n, if s.task K = c then (if K ≠ J then svc s K T - svc s K a else 0) else 0)
+      ≤ C c * (ActSet s J c a T).card := by
+  have h1 : ∀ K ∈ range s.n,
+      (if s.task K = c then (if K ≠ J then svc s K T - svc s K a else 0) else 0) ≤
+      (if (K ≠ J ∧ s.task K = c ∧ svc s K a < svc s K T) then C c else 0) := by
+    intro K hK
+    have hKn := mem_range.1 hK
+    by_cases h : K ≠ J ∧ s.task K = c ∧ svc s K a < svc s K T
+    · rw [if_pos h, if_pos h.2.1, if_pos h.1]
+      have := p_svc_le_cost A.hl K T
+      have := (A.hcost K hKn).2
+      rw [h.2.1] at this
+      omega
+    · rw [if_neg h]
+      by_cases h1 : s.task K = c
+      · rw [if_pos h1]
+        by_cases h2 : K ≠ J
+        · rw [if_pos h2]
+          have : ¬ svc s K a < svc s K T := fun h3 => h ⟨h2, h1, h3⟩
+          omega
+        · rw [if_neg h2]
+      · rw [if_neg h1]
+  refine Nat.le_trans (sum_le_sum h1) ?_
+  rw [← sum_filter]
+  unfold ActSet
+  rw [sum_const_nat (m := C c) (fun _ _ => rfl), Nat.mul_comm]
+
+theorem others_bound (A : Ana s σ E nT kind N C) (jc : JobCtx s rtb J) (S T : ℕ) (hS : 1 ≤ S)
+    (hT : s.arr J ≤ T) (hTS : T ≤ s.arr J + S) (hT0 : svc s J T = 0) :
+    sv s (fun K => K ≠ J) T ≤ sv s (fun K => K ≠ J) (s.arr J) + interf nT kind N C rtb (s.task J) S := by
+  have e1 : ∀ K ∈ range s.n, (if K ≠ J then svc s K T else 0) =
+      (if K ≠ J then svc s K (s.arr J) else 0) +
+        ∑ c ∈ range nT, if s.task K = c then (if K ≠ J then svc s K T - svc s K (s.arr J) else 0) else 0 := by
+    intro K hK
+    rw [sum_ite_eq (range nT) (s.task K) (fun _ => if K ≠ J then svc s K T - svc s K (s.arr J) else 0)]
+    rw [if_pos (mem_range.2 (A.htask K (mem_range.1 hK)))]
+    have := svc_mono (s := s) K hT
+    split <;> omega
+  have e0 : ∀ t, sv s (fun K => K ≠ J) t = ∑ K ∈ range s.n, if K ≠ J then svc s K t else 0 := by
+    intro t
+    unfold sv
+    refine sum_congr rfl (fun k _ => ?_)
+    split_ifs <;> rfl
+  rw [e0, e0, sum_congr rfl e1, sum_add_distrib, sum_comm]
+  apply Nat.add_le_add_left
+  unfold interf
+  apply sum_le_sum
+  intro c hc
+  have hcn := mem_range.1 hc
+  refine Nat.le_trans (act_sum_le A c (s.arr J) T) ?_
+  by_cases hci : c = s.task J
+  · rw [if_pos hci]
+    apply Nat.mul_le_mul_left
+    have := act_arrived_own A jc S T hS hTS
+    rw [hci]
+    omega
+  · rw [if_neg hci]
+    apply Nat.mul_le_mul_left
+    exact act_cap A jc c S T hcn hci hT hTS hT0
+
+theorem sv_single (J t : ℕ) (hJ : J < s.n) : sv s (fun k => k = J) t = svc s J t := by
+  unfold sv
+  have e : (∑ k ∈ range s.n, if k = J then svc s k t else 0) = svc s J t := by
+    rw [sum_ite_eq']
+    simp [hJ]
+  rw [← e]
+  refine sum_congr rfl (fun k _ => ?_)
+  split_ifs <;> rfl
+
+/-- the job `J` is complete `R` after its release -/
+theorem job_done (A : Ana s σ E nT kind N C) (jc : JobCtx s rtb J) (sbf : ℕ → ℕ)
+    (hsbf : ∀ t d, sbf d ≤ service σ t d) (S R : ℕ) (hS : 1 ≤ S)
+    (hW : 1 + interf nT kind N C rtb (s.task J) S ≤ sbf S)
+    (hR : sbf S - 1 + C (s.task J) ≤ sbf R) : svc s J (s.arr J + R) = s.cost J := by
+  have hl := A.hl
+  have hJ := jc.hJ
+  have hcJ := A.hcost J hJ
+  have hJa : svc s J (s.arr J) = 0 := p_svc_zero_before hl J _ (le_refl _)
+  -- (2) `J` starts before `a + S`
+  have hstarted : 0 < svc s J (s.arr J + S) := by
+    apply Nat.pos_of_ne_zero
+    intro h0
+    have hb := sv_supply (s := s) (σ := σ) (fun K => K ≠ J) (s.arr J) S (by
+      intro u h1 h2 h3
+      have hJu : svc s J u = 0 := by
+        have := svc_mono (s := s) J (show u ≤ s.arr J + S by omega); omega
+      obtain ⟨j', hj'⟩ := hl.wc u h3 ⟨J, hJ, h1, by omega⟩
+      refine ⟨j', hj', (hl.valid u j' hj').1, ?_⟩
+      intro e
+      rw [e] at hj'
+      have := svc_succ_of_eq (s := s) J u hj'
+      have := svc_mono (s := s) J (show u + 1 ≤ s.arr J + S by omega)
+      omega)
+    have ho := others_bound A jc S (s.arr J + S) hS (by omega) (le_refl _) h0
+    have := hsbf (s.arr J) S
+    omega
+  apply Classical.byContradiction
+  intro hne
+  have hlt : svc s J (s.arr J + R) < s.cost J := by
+    have := p_svc_le_cost hl J (s.arr J + R); omega
+  -- the slot in which `J` starts
+  let st := Nat.findGreatest (fun u => svc s J u = 0) (s.arr J + S)
+  have hst0 : svc s J st = 0 :=
+    Nat.findGreatest_spec (P := fun u => svc s J u = 0) (Nat.zero_le _) rfl
+  have hstle : st ≤ s.arr J + S := Nat.findGreatest_le _
+  have hage : s.arr J ≤ st :=
+    Nat.le_findGreatest (P := fun u => svc s J u = 0) (by omega) hJa
+  have hstlt : st < s.arr J + S := by
+    rcases Nat.lt_or_ge st (s.arr J + S) with h | h
+    · exact h
+    · have e : st = s.arr J + S := by omega
+      rw [e] at hst0; omega
+  have hst1 : 0 < svc s J (st + 1) :=
+    Nat.pos_of_ne_zero (Nat.findGreatest_is_greatest (P := fun u => svc s J u = 0)
+      (show st < st + 1 by omega) (by omega))
+  have hsJ : s.sched st = some J := sched_of_svc_lt (s := s) J st (by omega)
+  -- from its start on only `J` is served
+  have F1 : ∀ u, st ≤ u → u < s.arr J + R → ∀ j', s.sched u = some j' → j' = J := by
+    intro u h1 h2 j' hs
+    apply Classical.byContradiction
+    intro hne'
+    rcases Nat.eq_or_lt_of_le h1 with he | hlt'
+    · rw [← he, hsJ] at hs
+      injection hs with hs
+      exact hne' hs.symm
+    · have := svc_mono (s := s) J (show st + 1 ≤ u by omega)
+      have := svc_mono (s := s) J (show u ≤ s.arr J + R by omega)
+      have := hl.nonpre u j' hs J hJ (fun h => hne' h.symm)
+      omega
+  have hafter : sv s (fun K => K ≠ J) (s.arr J + R) ≤ sv s (fun K => K ≠ J) st := by
+    unfold sv
+    apply sum_le_sum
+    intro K _
+    by_cases hK : K ≠ J
+    · rw [if_pos hK, if_pos hK]
+      rcases Nat.le_total (s.arr J + R) st with h | h
+      · exact svc_mono K h
+      · apply le_of_eq
+        apply svc_const K st _ h
+        intro u h1 h2 hs
+        exact hK (F1 u h1 h2 K hs)
+    · rw [if_neg hK, if_neg hK]
+  have ho := others_bound A jc S st hS hage (by omega) hst0
+  have hb := sv_supply (s := s) (σ := σ) (fun K => K ≠ J ∨ K = J) (s.arr J) R (by
+    intro u h1 h2 h3
+    have : svc s J u < s.cost J := by
+      have := svc_mono (s := s) J (show u ≤ s.arr J + R by omega); omega
+    obtain ⟨j', hj'⟩ := hl.wc u h3 ⟨J, hJ, h1, this⟩
+    exact ⟨j', hj', (hl.valid u j' hj').1, Decidable.em _ |>.symm⟩)
+  have hdisj : ∀ t, sv s (fun K => K ≠ J ∨ K = J) t = sv s (fun K => K ≠ J) t + svc s J t := by
+    intro t
+    rw [sv_or_disj _ _ t (fun k h1 h2 => h1 h2), sv_single J t hJ]
+  rw [hdisj, hdisj] at hb
+  have := hsbf (s.arr J) R
+  omega
+
+/-- induction over the expiry times of the assumed bounds -/
+theorem all_done (A : Ana s σ E nT kind N C) (sbf : ℕ → ℕ)
+    (hsbf : ∀ t d, sbf d ≤ service σ t d) (hsbf0 : sbf 0 = 0)
+    (hana : ∀ i, i < nT → ∃ S R, 1 ≤ S ∧ 1 + interf nT kind N C rtb i S ≤ sbf S ∧
+      sbf S - 1 + C i ≤ sbf R ∧ R ≤ rtb i) :
+    ∀ D j, j < s.n → s.arr j + rtb (s.task j) = D →
+      svc s j (s.arr j + rtb (s.task j)) = s.cost j := by
+  intro D
+  induction D using Nat.strongRecOn with
+  | _ D ih =>
+    intro j hj hD
+    obtain ⟨S, R, hS, hW, hR, hle⟩ := hana (s.task j) (A.htask j hj)
+    have hcj := A.hcost j hj
+    have hRpos : 1 ≤ R := by
+      rcases Nat.eq_zero_or_pos R with h | h
+      · rw [h, hsbf0] at hR; omega
+      · exact h
+    have jc : JobCtx s rtb j := by
+      refine ⟨hj, ?_, by omega⟩
+      intro K hK hKa
+      have := ih (s.arr K + rtb (s.task K)) (by omega) K hK rfl
+      exact p_done_mono A.hl K (by omega) this
+    have := job_done A jc sbf hsbf S R hS hW hR
+    exact p_done_mono A.hl j (by omega) this
+
+/-! ### what `rr::rta_subchain = Ok(R)` provides -/
+
+theorem sumList_snoc (l : List ℕ) (x : ℕ) : sumList (l ++ [x]) = sumList l + x := by
+  induction l with
+  | nil => simp [sumList]
+  | cons a as ih => simp only [List.cons_append, sumList, ih]; omega
+
+theorem sumList_range (f : ℕ → ℕ) (n : ℕ) :
+    sumList ((List.range n).map f) = ∑ c ∈ range n, f c := by
+  induction n with
+  | zero => simp [sumList]
+  | succ n ih =>
+    rw [List.range_succ, List.map_append, List.map_singleton, sumList_snoc, ih, sum_range_succ]
+
+theorem mem_getD (wl : List Callback) (cb : Callback) (h : cb ∈ wl) :
+    ∃ i, i < wl.length ∧ wl.getD i default = cb := by
+  obtain ⟨i, hi, e⟩ := List.mem_iff_getElem.1 h
+  refine ⟨i, hi, ?_⟩
+  rw [List.getD_eq_getElem?_getD, List.getElem?_eq_getElem hi]
+  exact e
+
+theorem rr_extract (sup : Supply) (hs : sup.WF) (wl : List Callback) (C : ℕ → ℕ)
+    (hscalar : ∀ i, i < wl.length → (wl.getD i default).cost = .scalar (C i))
+    (hwf : ∀ cb ∈ wl, cb.arr.WF) (i : ℕ) (hi : i < wl.length) (limit R : ℕ)
+    (h : rrSubchain sup wl [i] limit = .ok R) :
+    ∃ S, 1 ≤ S ∧
+      1 + interf wl.length (fun c => (wl.getD c default).kind) (fun c d => (wl.getD c default).arr.N d)
+        C (fun c => (wl.getD c default).rtb) i S ≤ sup.sbf S ∧
+      sup.sbf S - 1 + C i ≤ sup.sbf R := by
+  have hlim : 1 ≤ limit := by
+    rcases Nat.eq_zero_or_pos limit with h0 | h'
+    · subst h0
+      exfalso
+      unfold rrSubchain at h
+      simp [hi, search, RTA.C08.limit_zero_diverges] at h
+    · exact h'
+  have hwf' : ∀ cb ∈ wl, cb.arr.WF ∧ MonoN cb.cost.ofJobs := by
+    intro cb hcb
+    refine ⟨hwf cb hcb, ?_⟩
+    obtain ⟨c, hc, e⟩ := mem_getD wl cb hcb
+    rw [← e, hscalar c hc]
+    intro a b hab
+    exact Nat.mul_le_mul_left _ hab
+  rw [rr_eq_naive sup hs wl [i] limit hlim (by simpa using hi) hwf'] at h
+  unfold naiveRr at h
+  simp only [List.getLast?_singleton] at h
+  have hnpp : sumPPBound wl [i] = (wl.getD i default).arr.N (wl.getD i default).rtb := by
+    simp [sumPPBound, sumList, Callback.ppBound]
+  rw [hnpp] at h
+  rcases RosNaiveLemmas.nss_cases sup.sbf 0
+      (rrRhs wl i ((wl.getD i default).arr.N (wl.getD i default).rtb)) limit with ⟨S, hS⟩ | hS
+  · rw [hS] at h
+    simp only [] at h
+    injection h with h
+    have hS' := ((RosNaiveLemmas.nss_ok_iff _ _ _ _ _).1 hS).2.1
+    rw [Nat.zero_add] at hS'
+    -- the right-hand side in sum form
+    have hrhs : ∀ x, rrRhs wl i ((wl.getD i default).arr.N (wl.getD i default).rtb) x =
+        1 + interf wl.length (fun c => (wl.getD c default).kind)
+          (fun c d => (wl.getD c default).arr.N d) C (fun c => (wl.getD c default).rtb) i x := by
+      intro x
+      unfold rrRhs interf
+      simp only []
+      rw [sumList_range, hscalar i hi]
+      have e1 : ∀ c ∈ range wl.length,
+          (if c = i then C c * ((wl.getD c default).arr.N (x + (wl.getD c default).rtb - 1) - 1)
+            else C c * cappedJobs (wl.getD c default).kind (wl.getD i default).kind
+              ((wl.getD c default).arr.N (x + (wl.getD c default).rtb - 1))
+              ((wl.getD i default).arr.N (wl.getD i default).rtb)) =
+          (if c = i then 0 else (wl.getD c default).directRbf (wl.getD i default).kind x
+              ((wl.getD i default).arr.N (wl.getD i default).rtb)) +
+            (if c = i then C c * ((wl.getD c default).arr.N (x + (wl.getD c default).rtb - 1) - 1)
+              else 0) := by
+        intro c hc
+        by_cases hci : c = i
+        · rw [if_pos hci, if_pos hci, if_pos hci]; omega
+        · rw [if_neg hci, if_neg hci, if_neg hci]
+          unfold Callback.directRbf
+          simp only []
+          rw [hscalar c (mem_range.1 hc)]
+          simp [Cost.ofJobs]
+      rw [sum_congr rfl e1, sum_add_distrib, sum_ite_eq']
+      simp only [mem_range, hi, if_true]
+      simp [Cost.ofJobs, Callback.rrSelfInstances]
+      omega
+    have h0 := Supply.sbf_zero sup hs
+    have hSpos : 1 ≤ S := by
+      rcases Nat.eq_zero_or_pos S with hz | hp
+      · subst hz
+        rw [hrhs, h0] at hS'
+        omega
+      · exact hp
+    have hmax : max S 1 = S := by omega
+    rw [hmax, hrhs] at hS'
+    refine ⟨S, hSpos, hS', ?_⟩
+    rw [RosNaiveLemmas.naiveSt_eq sup hs] at h
+    have hg := (Supply.galois sup hs _ R).1 (le_of_eq h)
+    rw [hscalar i hi] at hg
+    have e : Cost.ofJobs (.scalar (C i)) ((wl.getD i default).rrSelfInstances S + 1) -
+        Cost.ofJobs (.scalar (C i)) ((wl.getD i default).rrSelfInstances S) = C i := by
+      simp only [Cost.ofJobs]
+      rw [Nat.mul_add, Nat.mul_one]
+      omega
+    rw [e] at hg
+    exact hg
+  · rw [hS] at h
+    cases h
+
+end RrSoundLemmas
+
 /-- C05, rr, singleton subchains -/
 theorem rr_singleton_sound (s : Sys) (σ : ℕ → Bool) (E : ExecInfo) (hl : PollingExecLegal s σ E)
     (sup : Supply) (hs : sup.WF) (hsbf : ∀ t d, sup.sbf d ≤ service σ t d)
@@ -87,6 +975,23 @@ theorem rr_singleton_sound (s : Sys) (σ : ℕ → Bool) (E : ExecInfo) (hl : Po
     (limit : ℕ)
     (hself : ∀ i, i < wl.length → ∃ R, rrSubchain sup wl [i] limit = .ok R ∧ R ≤ (wl.getD i default).rtb) :
     ∀ j, j < s.n → MeetsBound s j (wl.getD (s.task j) default).rtb := by
-  sorry
+  intro j hj
+  have A : RrSoundLemmas.Ana s σ E wl.length (fun c => (wl.getD c default).kind)
+      (fun c d => (wl.getD c default).arr.N d) C := by
+    refine ⟨hl, htask, hkinds, hprio, hN, ?_, hcost⟩
+    intro i a b hab
+    by_cases hi : i < wl.length
+    · exact Arr.N_mono _ (hwf _ (RosNaiveLemmas.getD_mem wl i hi)) a b hab
+    · have e : wl.getD i default = default := by
+        rw [List.getD_eq_getElem?_getD, List.getElem?_eq_none (by omega)]
+        rfl
+      rw [e]
+      exact Nat.le_of_eq rfl
+  exact RrSoundLemmas.all_done (rtb := fun c => (wl.getD c default).rtb) A sup.sbf hsbf
+    (Supply.sbf_zero sup hs) (by
+      intro i hi
+      obtain ⟨R, hR, hle⟩ := hself i hi
+      obtain ⟨S, h1, h2, h3⟩ := RrSoundLemmas.rr_extract sup hs wl C hscalar hwf i hi limit R hR
+      exact ⟨S, R, h1, h2, h3, hle⟩) _ j hj rfl
 
 end RTA.Sched
